@@ -64,6 +64,7 @@ REQUIRED = {'CODE': ['ConceptCodeSequence'], 'COMPOSITE': ['ReferencedSOPSequenc
             'PNAME': ['PersonName'], 'SCOORD': ['GraphicType', 'GraphicData'], 'SCOORD3D': ['GraphicType', 'GraphicData'],
             'TCOORD': ['TemporalRangeType'], 'TIME': ['Time'], 'TEXT': ['TextValue'], 'UIDREF': ['UID'],
             'WAVEFORM': ['ReferencedSOPSequence']}      # PS3.3 C.17.3 / C.18: what each value type cannot do without
+NAME_MANDATORY = ['TEXT', 'NUM', 'CODE', 'DATETIME', 'DATE', 'TIME', 'UIDREF', 'PNAME']   # PS3.3 C.17.3 Table C.17-5
 ERR = {'IndexError': 'index', 'ValueError': 'value', 'TypeError': 'type', 'RuntimeError': 'runtime',
        'KeyError': 'key', 'AttributeError': 'attribute'}
 
@@ -216,7 +217,7 @@ def gen_item(r, depth=0, vt=None, bad=None, need_rel=False):
                     return None
                 if x < 0.6:
                     return r.randint(1, 500)
-                return [r.randint(1, 500) for _ in range(r.choice([1, 1, 2, 3, 6]))]
+                return [r.randint(1, 500) for _ in range(r.choice([1, 1, 2, 3, 5, 8]))]
             a['frames'] = nums()
             a['segments'] = nums() if a['frames'] is None or r.random() < 0.15 else None
         if vt == 'WAVEFORM':
@@ -265,7 +266,25 @@ def gen_item(r, depth=0, vt=None, bad=None, need_rel=False):
             d['bad'] = 'enum'
         elif bad == 'dim':
             d['bad'] = 'dim'
-        if gt in ('POLYGON', 'ELLIPSE') or r.random() < 0.5:
+        if d['bad'] == 'open' and r.random() < 0.5:
+            # closed except for ONE coordinate of the last point (the plane contains that axis, so it stays coplanar)
+            k = r.randrange(3)
+            while True:
+                u = [r.randint(-4, 4) / 2 for _ in range(3)]
+                u[k] = 0.0
+                if any(u):
+                    break
+            o = [_dyadic(r, 8, 64) for _ in range(3)]
+            pts, seen = [], set()
+            while len(pts) < n:
+                sa, sb = r.randint(-8, 8) / 2, r.randint(-8, 8) / 2
+                if (sa, sb) in seen:
+                    continue
+                seen.add((sa, sb))
+                pts.append([o[i] + sa * u[i] + (sb if i == k else 0.0) for i in range(3)])
+            pts[-1] = list(pts[0])
+            pts[-1][k] += r.choice([0.5, -1.0, 2.0])
+        elif gt in ('POLYGON', 'ELLIPSE') or r.random() < 0.5:
             pts = _plane_points(r, n, closed, coplanar)
         else:
             pts = [[_dyadic(r, 8, 256) for _ in range(3)] for _ in range(n)]
@@ -833,6 +852,15 @@ def check_item(ctx, case, reqs=None, pend=None):
                 try:
                     _parse(ds if how == 'class' else plain_copy(ds), vt, d['rel'], how)
                     ctx.fail(where, f'{vt} dataset without required attribute {attr} parsed ({how})', site='parse-missing/' + vt)
+                except Exception:  # noqa: BLE001
+                    pass
+        if vt in NAME_MANDATORY:
+            for how in ('class', 'sequence'):
+                ds = plain_copy(it)
+                del ds['ConceptNameCodeSequence']
+                try:
+                    _parse(ds, vt, d['rel'], how)
+                    ctx.fail(where, f'{vt} dataset without concept name parsed ({how})', site='parse-missing-name/' + vt)
                 except Exception:  # noqa: BLE001
                     pass
         other = r.choice([v for v in VTS if v != vt])
